@@ -6,3 +6,4 @@ import PG.Props.C03
 #print axioms PG.C03_nodup
 #print axioms PG.C03_class_local
 #print axioms PG.C03_cache
+#print axioms PG.C03_file
